@@ -71,6 +71,9 @@ func (rt *runtime) clone() *runtime {
 	}
 
 	out.eval = out.globalObject.property["eval"].value.(Value).value.(*object)
+	if rt.thrower != nil {
+		out.thrower = c.object(rt.thrower)
+	}
 	out.globalObject.prototype = out.global.ObjectPrototype
 
 	// Not sure if this is necessary, but give some help to the GC
